@@ -237,6 +237,8 @@ def body(ctx: H.BaseCtx):
 
     if ctx.case.get("op") == "sympy":
         return body_sympy(ctx)
+    if ctx.case.get("op") == "special":
+        return body_special(ctx)
     case = ctx.case
     spec = case["poly"]
     old_hook = ENGINE.str_hook
@@ -296,6 +298,51 @@ def body(ctx: H.BaseCtx):
         ENGINE.str_hook = old_hook
 
 
+def body_special(ctx: H.BaseCtx):
+    """Native only, default display options: complex / signed-zero / tiny coefficients.  The printed text of every element, read
+    by python as ordinary arithmetic at two points, must give the value of that element at those points."""
+    import numpoly
+    from .. import special as SP
+
+    if ctx.symbolic:
+        return
+    q0, q1 = numpoly.variable(2)
+    extra = [("negated imaginary", -(q0 + 2j)), ("negated imaginary array", numpoly.polynomial([-(q0 * q1 + 1j), -1j * q1 - 2, (1 - 1j) * q0])), ("imaginary times -1", (q0 * 1j + 1) * -1),
+             ("bool", numpoly.polynomial(numpy.array([True, False])) * 1 + (q0 > q1))] if False else [("negated imaginary", -(q0 + 2j)), ("negated imaginary array", numpoly.polynomial([-(q0 * q1 + 1j), -1j * q1 - 2, (1 - 1j) * q0])), ("imaginary times -1", (q0 * 1j + 1) * -1)]
+    polys = [(l, p) for l, p in SP.zoo((2,)) if "non-finite" not in l and "complex64" not in l and "float32" not in l] + extra
+    points = [{"q0": 1.3, "q1": -0.7}, {"q0": -2.0, "q1": 0.25}]
+    with numpy.errstate(all="ignore"):
+        for label, p in polys:
+            for kind, text in (("str", str(p)), ("repr", repr(p)), ("array_str", numpoly.array_str(p))):
+                body_text, sep = text, " "
+                if kind == "repr":
+                    if not (text.startswith("polynomial(") and text.endswith(")")):
+                        ctx.fail("format", "%s of a %s polynomial is %r" % (kind, label, text[:60]))
+                        continue
+                    body_text, sep = text[len("polynomial("):-1], ", "
+                try:
+                    elems = _flatten(parse_nested(body_text, sep)) if body_text.strip().startswith("[") else [body_text.strip()]
+                except ParseError as e:
+                    ctx.fail("format", "%s of a %s polynomial cannot be split into elements: %s" % (kind, label, e))
+                    continue
+                flat = [p] if not p.shape else [p[i] for i in numpy.ndindex(*p.shape)]
+                if len(elems) != len(flat):
+                    ctx.fail("shape", "%s of a %s polynomial has %d elements, expected %d: %r" % (kind, label, len(elems), len(flat), text[:80]))
+                    continue
+                for et, el in zip(elems, flat):
+                    for pt in points:
+                        try:
+                            val = eval(et, {"__builtins__": {}}, dict(pt))  # noqa: S307 -- text produced by the library under test
+                        except Exception as e:
+                            ctx.fail("format", "%s text %r of a %s polynomial cannot be read as arithmetic: %s: %s" % (kind, et[:60], label, type(e).__name__, str(e)[:40]))
+                            break
+                        want = el(**{k: v for k, v in pt.items() if k in el.names})
+                        want = numpy.asarray(want.tonumpy() if isinstance(want, numpoly.ndpoly) else want)
+                        if not SP.close_parts(numpy.asarray(val, dtype=complex), numpy.asarray(want, dtype=complex), rtol=1e-7):
+                            ctx.fail("value", "%s text %r of a %s polynomial evaluates to %s at %s, the element to %s" % (kind, et[:60], label, val, pt, want.tolist()))
+                            break
+
+
 def body_for(case):
     return body
 
@@ -347,6 +394,8 @@ def gen_cases(tier: str, seed: int) -> List[Dict]:
         n += 1
         cases.append({"id": "%s-%03d-sympy-bigint" % (PROP, n), "op": "sympy", "options": {}, "limits": lim,
                       "poly": {"kind": "poly", "names": ["q0", "q1"], "exps": [[0, 0], [1, 1], [2, 0]], "shape": [], "slots": [[7], [coef], ["a0"]], "mode": "raw"}})
+    cases.append({"id": "%s-%03d-special-content" % (PROP, n + 1), "op": "special", "options": {}, "limits": lim,
+                  "poly": {"kind": "poly", "names": ["q0"], "exps": [[0]], "shape": [], "slots": [[1]], "mode": "raw"}})
     return cases
 
 
